@@ -105,6 +105,10 @@ func RunC04(tier string) int {
 	// with EIO / EACCES / EMFILE in the real binary (strace fault injection, hook-free)
 	e1.SysFaultPart(run, st, tierN(tier, 8, 50), tierN(tier, 8, 30), map[string]bool{"read": true},
 		map[string]bool{"crash": true, "hang": true}, false)
+	// transient errors of the cache backend's Get at the hook (the N-th read fails, once or from
+	// then on), half of the cases under load_outputs=minimal where results are read a second time
+	// from inside a dependant's task: judged on crash and hang
+	e1.GetFaultPart(run, st, tierN(tier, 12, 80), tierN(tier, 8, 40), false, map[string]bool{"crash": true, "hang": true})
 	e1.InterruptWidePart(run, st, tierN(tier, 24, 300))
 	// whole builds under the race detector
 	RaceBuildPart(run, st, tierN(tier, 10, 120))
